@@ -45,6 +45,8 @@ type Prog struct {
 	// file bytes which belong to whatever follows in the file, or lie past
 	// its end.
 	Claim uint64 `json:"claim,omitempty"`
+	// PaddrDelta: p_paddr = Vaddr + PaddrDelta (a load address different from the virtual one)
+	PaddrDelta uint64 `json:"paddr_delta,omitempty"`
 }
 
 // File is the description.
@@ -129,7 +131,7 @@ func (f File) Bytes() []byte {
 		le.PutUint32(ph[4:], 5)
 		le.PutUint64(ph[8:], progOff[i])
 		le.PutUint64(ph[16:], p.Vaddr)
-		le.PutUint64(ph[24:], p.Vaddr)
+		le.PutUint64(ph[24:], p.Vaddr+p.PaddrDelta)
 		le.PutUint64(ph[32:], uint64(len(p.Data))+p.Claim)
 		le.PutUint64(ph[40:], p.Memsz)
 		le.PutUint64(ph[48:], 1)
